@@ -31,6 +31,7 @@ RULE = ("configurations: class in {Exchange, Exchanger, Exchangent} x timeout in
         "from {0, 1/16 .. 4}, a delay before start, and new messages sent in between (the retransmitted message "
         "must be the latest); distinct = distinct (class, timeout, redo, start stamp, schedule); non-trivial = at "
         "least one process() call at which a redo or the time out is due in the model")
+RULE = __import__("vf.core", fromlist=["rule_add"]).rule_add(RULE, 'also exchanges on a real (unserviced) stacking.Stack, and base exchanges started with nothing to transmit whose first message comes later by send()')
 META = {"engine": "B history",
         "technique": "timer-arithmetic model compared after every process() on a virtual clock",
         "level_text": "exploration: the configuration grid is covered completely with all short schedules; longer "
